@@ -80,7 +80,7 @@ def run(ctx):
         chunks = [lits[i::len(picks)] for i in range(len(picks))]
         for v, ids in zip(picks, chunks):
             p = os.path.join(tmp, 'w-%s.wowsreplay' % v)
-            b, vs = battle.build_wows(v, random.Random(rng.randrange(10 ** 9)), join=False, roster_extra=exotic_roster)
+            b, vs = battle.build_wows(v, random.Random(rng.randrange(10 ** 9)), join=False, roster_extra=exotic_roster, special_floats=True)
             # position packets (and own-player position packets) for entities whose ids are source literals
             for eid in ids[:400]:
                 other = [n for n in b.md.names if n not in ('Avatar', 'Vehicle', 'BattleLogic')][0]
